@@ -559,3 +559,88 @@ Proof.
   split_seg Ek; [|not_here Ek].
   apply in_map_iff in Ek. destruct Ek as (e & Ek & Hin). injection Ek as Ek. exact (eq_true_false_abs _ (H15 e Hin) Ek).
 Qed.
+
+(** ** the whole of [holds_C08] on the model's own trace *)
+Lemma holds_C08_range seen fired tr sc p st o : holds_C08 seen fired tr sc p st o = 0 \/ 1 <= holds_C08 seen fired tr sc p st o <= 9.
+Proof.
+  destruct (Z.eq_dec (holds_C08 seen fired tr sc p st o) 0) as [E0|E0]; [left; exact E0|right].
+  remember (holds_C08 seen fired tr sc p st o) as k eqn:Ek. symmetry in Ek. pose proof (first_fail_in _ k Ek E0) as E. clear Ek.
+  code_of E. all: cbv zeta in E; code_of E.
+Qed.
+
+Lemma fired_step univ c s st : cb_keys (cblog s) ++ cb_keys (o_cb (obs_step univ c s st)) = cb_keys (cblog (apply c s st)).
+Proof. unfold obs_step. cbn [obs_of o_cb]. rewrite !cb_keys_resp_keys, <- resp_keys_app, <- step_cb. reflexivity. Qed.
+
+Lemma check_from_quiet8 univ c : forall rest s seen ts,
+  (forall pre st post, rest = pre ++ st :: post ->
+     forall pc pn pb,
+       holds_C08 (model_seen univ c s seen pre) (cb_keys (cblog (run c s pre))) (fst (model_ts univ c s ts pre)) (snd (model_ts univ c s ts pre))
+         (obs_of univ pc pn pb (run c s pre)) st (obs_step univ c (run c s pre) st) = 0) ->
+  forall pc pn pb i corr p7 c7 p8 c8,
+    let '(_, _, _, p8', c8') :=
+      check_from c s (obs_of univ pc pn pb s) seen (cb_keys (cblog s)) (fst ts) (snd ts) (model_trace univ c s rest) i corr p7 c7 p8 c8 in
+    p8' = p8 /\ c8' = c8.
+Proof.
+  induction rest as [|st r IH]; intros s seen ts H pc pn pb i corr p7 c7 p8 c8.
+  - cbn [model_trace check_from]. split; reflexivity.
+  - cbn [model_trace]. rewrite check_from_cons.
+    pose proof (H [] st r eq_refl pc pn pb) as K0. cbn [run model_seen model_ts] in K0. rewrite K0. cbn [Z.eqb negb]. rewrite andb_false_r.
+    rewrite fired_step.
+    set (p := obs_of univ pc pn pb s) in *. set (o := obs_step univ c s st) in *.
+    set (ts' := (update_track (fst ts) p st o, update_sched (snd ts) (fst ts) p st o)).
+    assert (H' : forall pre st0 post, r = pre ++ st0 :: post ->
+              forall pc pn pb,
+                holds_C08 (model_seen univ c (apply c s st) (seen ++ map fst (created_in p o)) pre) (cb_keys (cblog (run c (apply c s st) pre)))
+                  (fst (model_ts univ c (apply c s st) ts' pre)) (snd (model_ts univ c (apply c s st) ts' pre))
+                  (obs_of univ pc pn pb (run c (apply c s st) pre)) st0 (obs_step univ c (run c (apply c s st) pre) st0) = 0).
+    { intros pre st0 post E. exact (H (st :: pre) st0 post (f_equal (cons st) E)). }
+    exact (IH (apply c s st) (seen ++ map fst (created_in p o)) ts' H'
+             (res_code (exec_step c s st)) (step_newctx s st (exec_step c s st)) (skipn (length (cblog s)) (cblog (apply c s st)))
+             _ _ _ _ p8 c8).
+Qed.
+
+Theorem model_passes_check_C08_lemma :
+  forall c steps h0 t0 l0 univ,
+    c_msvc c < 0 -> 0 <= c_tax c -> clean l0 -> NoDup (create_txhs steps) -> Forall good_step steps ->
+    In (DEP, BASE) univ -> (forall d, In d (denoms c) -> In (REQ, d) univ) ->
+    (forall pre st post, steps = pre ++ st :: post -> forall rid q, get rid (reqs (run c (init h0 t0 l0) pre)) = Some q ->
+       In (TAX, q_fd q) univ /\ In (REQ, q_fd q) univ) ->
+    ledger_of (obs_of univ 0 None [] (init h0 t0 l0)) = l0 ->
+    check_case_C08 (model_case univ c h0 t0 l0 steps) = (-1, -1, 0).
+Proof.
+  intros c steps h0 t0 l0 univ Hm Htax Hcl Hnd Hgood Hu1 Hu2 Hu5 Hl.
+  pose proof (model_step_ok c steps h0 t0 l0 univ Hm Htax Hcl Hnd Hgood Hu1 Hu2 Hu5) as H.
+  assert (Z8 : forall pre st post, steps = pre ++ st :: post ->
+            forall pc pn pb,
+              holds_C08 (model_seen univ c (init h0 t0 l0) [] pre) (cb_keys (cblog (run c (init h0 t0 l0) pre)))
+                (fst (model_ts univ c (init h0 t0 l0) ([], []) pre)) (snd (model_ts univ c (init h0 t0 l0) ([], []) pre))
+                (obs_of univ pc pn pb (run c (init h0 t0 l0) pre)) st (obs_step univ c (run c (init h0 t0 l0) pre) st) = 0).
+  { intros pre st post E pc pn pb.
+    destruct (H pre st post E pc pn pb (cb_keys (cblog (run c (init h0 t0 l0) pre)))
+                (fst (model_ts univ c (init h0 t0 l0) ([], []) pre)) (snd (model_ts univ c (init h0 t0 l0) ([], []) pre)))
+      as (_ & K1 & K2 & K5 & K6 & K8 & K9).
+    assert (Hnd1 : NoDup (create_txhs (pre ++ [st]))).
+    { rewrite E in Hnd. replace (pre ++ st :: post) with ((pre ++ [st]) ++ post) in Hnd by (rewrite <- app_assoc; reflexivity).
+      rewrite create_txhs_app in Hnd. exact (NoDup_app_l _ _ Hnd). }
+    assert (Hg : good_step st) by (apply (proj1 (Forall_forall _ _) Hgood); rewrite E; apply in_elt).
+    pose proof (model_passes_C08_clause_3_lemma c pre st h0 t0 l0 univ (model_seen univ c (init h0 t0 l0) [] pre) (cb_keys (cblog (run c (init h0 t0 l0) pre)))
+                  (fst (model_ts univ c (init h0 t0 l0) ([], []) pre)) (snd (model_ts univ c (init h0 t0 l0) ([], []) pre)) pc pn pb Hnd1 Hg) as K3.
+    pose proof (model_passes_C08_clause_4_lemma c steps h0 t0 l0 univ Hnd Hgood pre st post E (model_seen univ c (init h0 t0 l0) [] pre)
+                  (cb_keys (cblog (run c (init h0 t0 l0) pre))) pc pn pb) as K4.
+    pose proof (model_passes_C08_clause_7_lemma c steps h0 t0 l0 univ Hnd Hgood pre st post E (model_seen univ c (init h0 t0 l0) [] pre)
+                  (fst (model_ts univ c (init h0 t0 l0) ([], []) pre)) (snd (model_ts univ c (init h0 t0 l0) ([], []) pre)) pc pn pb) as K7.
+    cbv zeta in K3, K4, K7.
+    destruct (holds_C08_range (model_seen univ c (init h0 t0 l0) [] pre) (cb_keys (cblog (run c (init h0 t0 l0) pre)))
+                (fst (model_ts univ c (init h0 t0 l0) ([], []) pre)) (snd (model_ts univ c (init h0 t0 l0) ([], []) pre))
+                (obs_of univ pc pn pb (run c (init h0 t0 l0) pre)) st (obs_step univ c (run c (init h0 t0 l0) pre) st)) as [Z|R]; [exact Z|lia]. }
+  destruct (model_corresponds_to_itself_lemma c steps h0 t0 l0 univ Hnd Hl) as (_ & C8). cbv zeta in C8.
+  assert (E : check_all (model_case univ c h0 t0 l0 steps) = check_from c (init h0 t0 l0) (obs_of univ 0 None [] (init h0 t0 l0)) [] [] [] [] (model_trace univ c (init h0 t0 l0) steps) 1
+                (if corr_state (init h0 t0 l0) (obs_of univ 0 None [] (init h0 t0 l0)) then -1 else 0) (-1) 0 (-1) 0).
+  { unfold check_all, model_case. rewrite Hl. reflexivity. }
+  pose proof (check_from_quiet8 univ c steps (init h0 t0 l0) [] ([], []) Z8 0 None [] 1
+                (if corr_state (init h0 t0 l0) (obs_of univ 0 None [] (init h0 t0 l0)) then -1 else 0) (-1) 0 (-1) 0) as G.
+  cbn [fst snd] in G. change (cb_keys (cblog (init h0 t0 l0))) with (@nil (ctxid * Z)) in G.
+  unfold check_case_C08 in C8 |- *. rewrite E in C8 |- *.
+  destruct (check_from _ _ _ _ _ _ _ _ _ _ _ _ _ _) as [[[[r1 r2] r3] r4] r5]. destruct G as (-> & ->).
+  rewrite (C8 r1 (-1) 0 eq_refl). reflexivity.
+Qed.
